@@ -278,8 +278,8 @@ func init() {
 				}
 			}
 			return false
-		}, nil),
-		Floors: []string{"history_deletes_checked", "history_postconditions_checked"}})
+		}, directedC13),
+		Floors: []string{"history_deletes_checked", "history_postconditions_checked", "bulk_trim_fault_scenarios"}})
 	c11n := scenarioCases(4800, 96000)
 	register(&Check{Prop: "C11", Level: "exploration",
 		Rule:   "scenario family with pause / deletion flags raised at random moments (non-trivial = reconcile of a paused or deleting set); plus pause twins through the event-driven loop (ordered cache delivery -> the controller's own handlers -> virtual-time queue -> processNextWorkItem): the same user edits with and without a pause window (raised at quiescence or mid-work, lowered as the only change) must end quiescent, converged and in the same state, with no write inside the window",
@@ -323,4 +323,4 @@ func init() {
 		Floors: []string{"revision_creates_checked", "revision_renumbers_checked", "successful_reconciles_checked", "unchanged_template_reconciles", "name_collisions_seen", "rollbacks_after_collision", "rollback_renumber_fault_scenarios", "newest_revision_postconditions_checked", "churn_reconciles", "churn_revisions_with_all_digit_hash_label", "churn_known_numeric_images_confirmed"}})
 }
 
-var directedC06, directedC08, directedC12 []func(*fam)
+var directedC06, directedC08, directedC12, directedC13 []func(*fam)
